@@ -30,6 +30,17 @@ func VerifC16WakeDrain(s *Session) {
 	}
 }
 
+// VerifC16Park keeps the Server's event thread busy the way a slow New / Shutdown / Oneshot
+// callback does: it queues an event whose callback signals started and waits for release.
+func VerifC16Park(srv *Server, started, release chan struct{}) {
+	srv.queue(event{s: new(Session), sf: func(*Session) { close(started); <-release }})
+}
+
+// VerifC16NewLen is the number of Listeners waiting in the Server's new queue;
+// VerifC16Cancelled reports whether the Server's context was cancelled.
+func VerifC16NewLen(srv *Server) int     { return len(srv.new) }
+func VerifC16Cancelled(srv *Server) bool { return srv.ctx.Err() != nil }
+
 // VerifC16ListenerNil reports whether the Listener's socket field is nil (read at quiescence).
 func VerifC16ListenerNil(l *Listener) bool { return l.listener == nil }
 
